@@ -564,7 +564,11 @@ def read_contract(h):
             state["n"] = 1
             if not it.test(it.eval(node.test, env)):
                 raise PathEnd()
-            it.exec_block(node.body, env)
+            from pyvc.interp import _Continue
+            try:
+                it.exec_block(node.body, env)
+            except _Continue:
+                pass
             raise LoopCut()  # next iteration = another arbitrary iteration
         return None
 
@@ -609,7 +613,11 @@ def read_failures(h):
     def loop_hook(it, node, env):
         if state["n"] == 0:
             state["n"] = 1
-            it.exec_block(node.body, env)
+            from pyvc.interp import _Continue
+            try:
+                it.exec_block(node.body, env)
+            except _Continue:
+                pass
             raise LoopCut()
         return None
 
